@@ -109,6 +109,17 @@ LargestUnitThatFits == kind = "size" /\ SizeInDomain(c) =>
                           /\ (SizeUnit(c) < c.e => (c.e > 4 \/ (c.m = 1 /\ c.d = -1)))
                           /\ (SizeUnit(c) > c.e => (c.e = 0 /\ c.m + c.d >= c.base))
 
+(* the counters family (decor/counters.go): which quantity each member prints for a bar at (cur, tot); every member
+   prints it through the size formatter above (or as a plain integer for the NoUnit members), Counters prints the
+   pair <<current, total>>.  The driver computes the quantity from this table for the case's byte count as total and
+   a third of it as current. *)
+Quantity(member, cur, tot) == CASE member = "current"  -> cur
+                                [] member = "total"    -> tot
+                                [] member = "inverted" -> tot - cur
+ASSUME \A tot \in 0..6 : \A cur \in 0..tot :
+         /\ Quantity("current", cur, tot) + Quantity("inverted", cur, tot) = Quantity("total", cur, tot)
+         /\ Quantity("inverted", cur, tot) \in 0..tot
+
 (* time: the three fields of a duration of h hours, m minutes, s seconds (+ms, which is dropped) *)
 Secs(x) == x.h * 3600 + x.m * 60 + x.s
 SplitOK == kind = "time" => /\ (Secs(c) \div 3600) % 60 = c.h
